@@ -21,6 +21,16 @@ type MessageVerifBad struct{ X complex64 }
 
 func (*MessageVerifBad) GetID() uint32 { return 4000000 }
 
+// malformed: a field of a named type without the mavenum tag that says how it travels
+type VerifNamedByte uint8
+
+type MessageVerifBad2 struct {
+	A    uint8
+	Mode VerifNamedByte
+}
+
+func (*MessageVerifBad2) GetID() uint32 { return 4000000 }
+
 // D2: a dialect with duplicate ids or a malformed message struct is rejected when it is initialised
 func verifHarness_C17_duplicates(k int, bad int) {
 	all := []message.Message{&MessageVerifDynA{}, &MessageVerifDynB{}, &MessageVerifDynC{}, &MessageVerifDynD{}}
@@ -36,9 +46,12 @@ func verifHarness_C17_duplicates(k int, bad int) {
 	if bad == 1 {
 		msgs = append(msgs, &MessageVerifBad{})
 	}
+	if bad == 2 {
+		msgs = append(msgs, &MessageVerifBad2{})
+	}
 	rw := &ReadWriter{Dialect: &Dialect{Version: 1, Messages: msgs}}
 	err := rw.Initialize()
-	verifAssert(verifIff(err != nil, verifOr(dup, bad == 1)), "C17/rejected-iff-duplicate-id-or-malformed-struct")
+	verifAssert(verifIff(err != nil, verifOr(dup, bad != 0)), "C17/rejected-iff-duplicate-id-or-malformed-struct")
 	if err == nil {
 		for i := 0; i < k; i++ {
 			mp := rw.GetMessage(verifDynIDs[i])
